@@ -344,6 +344,43 @@ func (s *Setup) Reselect(b *EnvBudget) []EnvOp {
 	return ops
 }
 
+// ReplaceUnderWrite returns a ForceFault hook: now and then, at the moment a
+// worker's update of a child is about to be served, another party deletes that
+// child and creates a foreign look-alike under the same name; the update is then
+// refused as a conflict (as the server would, the object's identity having
+// changed). A retry that re-reads by name meets an object it never observed.
+func (s *Setup) ReplaceUnderWrite(permille int) func(r *ReqRec) string {
+	w := s.W
+	return func(r *ReqRec) string {
+		if r.Sync < 0 || r.Verb != "update" || r.Sub != "" || r.Res == nil || s.Cfg.Rule(r.Res) == nil {
+			return ""
+		}
+		cur := w.Store.Get(r.Res, r.NS, r.Name)
+		if cur == nil || len(getList(cur, "metadata", "finalizers")) > 0 {
+			return ""
+		}
+		// ownership edits (adoption, release) are the rare and interesting writes: they get
+		// a much higher chance than content updates
+		chance := permille
+		if body, err := parse(r.Body); err == nil && sameExceptOwnership(cur, withStatusOf(body, cur)) {
+			chance = 350
+		}
+		if !w.T.Chance(chance, "replace-under-write?") {
+			return ""
+		}
+		w.Store.Delete(r.Res, r.NS, r.Name, DeleteOpts{}, "user")
+		n := Object{"apiVersion": cur["apiVersion"], "kind": cur["kind"],
+			"metadata": Object{"name": r.Name, "labels": Object{"app": "someone-else"}},
+			childContentField(r.Res): Object{"made-by": "somebody-else"}}
+		if _, e := w.Store.Create(r.Res, r.NS, n, "user"); e != nil {
+			return ""
+		}
+		w.logf("env replace-under-write %s %s/%s", r.Res.Kind, r.NS, r.Name)
+		w.Probe("child-replaced-under-a-write")
+		return "409"
+	}
+}
+
 // allChildren lists every object of the controller's child kinds.
 func (s *Setup) allChildren() []Object {
 	var out []Object
